@@ -1,6 +1,7 @@
 import Ecal.Model.ParserWF
 import Ecal.Model.TokenChannel
 import Ecal.Gen.C07
+import Ecal.Lemmas.LexTerminates
 import Ecal.Lemmas.ParserMain
 import Ecal.Lemmas.ParserShape
 import Ecal.Lemmas.ParserShapeS
@@ -333,5 +334,38 @@ theorem table_matches_source :
     (List.range 200).all (fun id => (table id).isNone || Ecal.Gen.C07.astNodeMap.any (·.1 = id)) = true ∧
     Ecal.Gen.C07.blockBrace = (T_LBRACE, "", 0, "nil", "nil") ∧
     Ecal.Gen.C07.tokenError = 0 ∧ Ecal.Gen.C07.tokenPreComment = 3 ∧ Ecal.Gen.C07.tokenPostComment = 4 := by decide
+
+/-! ## End to end: source text → lexer → parser, with the token channel -/
+
+/-- **parse_end_to_end.** For EVERY input text (any byte string), composing the lexer model, the parser model
+    and the channel model:
+    1. the lexer terminates with a finite, non-empty token list whose last token is EOF or an error token
+       (`lexer_always_closes`, proved by the owner of the lexer model, C18) — so the producer of the channel
+       model has finitely many sends, `(lex input).size`, and then closes;
+    2. the parser terminates (no fuel exhaustion, no nil dereference) with EITHER a tree and no error — and the
+       tree is `WellFormed`, strictly well formed (`WellFormedRoot`) and `walkable` by the consumer census — OR
+       no tree and an error of one of the six kinds whose position is that of a token of the input, or the
+       unpositioned `Unexpected end` (known finding `unexpected-end-unpositioned`);
+    3. in the channel model selected by the source (`source_selects_sync`), started with exactly this number
+       of tokens, whenever `ParseWithRuntime` has returned — under every interleaving and wherever the parser
+       stopped — no helper goroutine exists and the lexer goroutine is past its `close`, after which only its
+       own `exit` is left (`producer_exits_alone`).
+    What is NOT proved: that the three models equal lexer.go / parser.go / Go's channel semantics (tested by the
+    correspondence runs of C18 and C07 and by the goroutine measurement). -/
+theorem parse_end_to_end (input : List Nat) :
+    (∃ last, (lex input).back? = some last ∧ (last.id = tEOF ∨ last.id = tERROR)) ∧
+    ((∃ t, parse input = (some t, none) ∧ WellFormed t = true ∧ WellFormedRoot t = true ∧ walkable t = true) ∨
+     (∃ k l c, parse input = (none, some (.perr k l c)) ∧ sixKinds k ∧
+        ((∃ tk ∈ (lex input).toList, tk.line = l ∧ tk.col = c) ∨ (k = "Unexpected end" ∧ l = 0 ∧ c = 0)))) ∧
+    (∀ (es : List Ev) (s : St), exec .sync (init (lex input).size) es = some s → s.cons = .returned →
+        clean s = true) := by
+  refine ⟨Ecal.Lex.lexer_always_closes input, ?_, fun es s h hr => producer_done_at_return _ es s h hr⟩
+  rcases parse_error_xor_tree (lex input).toList with ⟨t, ht⟩ | ⟨k, l, c, he⟩
+  · exact Or.inl ⟨t, ht, parse_wellformed _ t ht, parse_wellformed_strict _ t ht, parse_walkable _ t ht⟩
+  · exact Or.inr ⟨k, l, c, he, error_position_from_input _ k l c he⟩
+
+/-- non-vacuity of both alternatives on text: `a` parses, `)` is an error at line 1, column 1 -/
+example : (parse [97]).1.isSome = true ∧ (parse [41]).2 = some (.perr "Term cannot start an expression" 1 1) := by
+  decide +kernel
 
 end Ecal.Props.C07
